@@ -45,6 +45,9 @@ HARNESSES = {
     'contains_type_path_catalogue': dict(crate='scale-typegen', file='typegen.rs', complete=False, tier='quick',
                                          bound='one fixed registry {a::b, c} x 7 fixed query paths (no symbolic data)',
                                          what='UNMODIFIED registry_contains_type_path separates exact equality from prefix / suffix / last-segment / length-only comparison'),
+    'contains_type_path_catalogue2': dict(crate='scale-typegen', file='typegen.rs', complete=False, tier='quick',
+                                          bound='one fixed registry {a::m::b, p::k, q::k, a_b::c} x 7 fixed query paths (no symbolic data)',
+                                          what='UNMODIFIED registry_contains_type_path: middle segments, shared last segment, permutation, separator confusion'),
     'contains_type_path_n1': dict(crate='scale-typegen', file='typegen.rs', complete=False, tier='thorough',
                                   bound='<= 1 registry type, paths of <= 1 segment over the pool {"a","b"}',
                                   what='UNMODIFIED registry_contains_type_path <=> some registry type has exactly this path (cross-check of the assumed std contracts of U-CONTAINS)'),
